@@ -172,10 +172,13 @@ def o2(W, ob):
 
 from . import initial
 
+from . import casts
+
 OBLIGATIONS = [
     ('C15.O1', 'the recommendation', 'WaitRecommendation has one constructor, guarded by frames_ahead >= 3 and current > next_recommended_sleep, carrying frames_ahead, '
      're-arming next_recommended_sleep = current + 60 on the same path; frames_ahead is refreshed from max_frame_advantage (max over connected players).', o1),
     ('C15.O2', 'stats guards and plumbing', 'Ok(NetworkStats) only while Synchronizing/Running with >= 1 s of data, fields from the right sources; every quality report '
      'is stored unconditionally and answered; RTT saturates; time-sync samples and the meet-in-the-middle average keep their shape.', o2),
     ('C15.I', 'initial state', 'every constructor gives the fields this property\'s rules interpret (NULL_FRAME = none / nothing yet, 0 = first frame, latches open, typestate start) the value listed in tables/initial_state.json; every field compared with NULL_FRAME anywhere is listed; see rules/initial.py', initial.rule_for('C15')),
+    ('C15.C', 'lossy integer casts', 'every sign-changing cast (signed -> unsigned; NULL_FRAME is -1) and every narrowing cast to < 32 bits or from 128 bits in the crate is in range by a dominating guard, by the shape of its operand, or listed with a reason in tables/casts.json; see rules/casts.py', casts.rule),
 ]
